@@ -40,6 +40,9 @@ fn main() {
         // C12 at the connection: the session service is asked about exactly the claimed user
         "C12" => c01::run_filtered(&cli, Some("service-asked-about-other-user")),
         "C10" => c10::run_prop(&cli),
+        // C11 at the connection: the hash is taken over the secret that keys this connection and the key
+        // this client was given (which of its inputs go where is decided at the call site)
+        "C11" => c01::run_filtered(&cli, Some("service-asked-with-other")),
         // C14 at the connection: the configured maximum frame length is enforced in every protocol state
         "C14" => c04::run_filtered(&cli, Some(&["malformed-input-accepted/", "body-consumed-after-refused-length/", "reply-after-refused-length/"])),
         // C18 at the connection: the allow/block lists and strategies are given the authenticated player
